@@ -666,6 +666,9 @@ def _fmt_expand(text, st, args, pieces, sink, lit_fn, arg_fn):
         return None
     return " ".join(out)
 
+IO_UNWRAP = set()     # rule R11: callee names whose `.unwrap()` is an accepted panic on I/O failure (set per unit build)
+
+
 def apply_rules(text, rules, ed, base=0, regex_map=None):
     """Apply the closed list of rewrite rules (DESIGN.md 2.1 item 2) to `text`;
     edits are recorded in `ed` at offset `base`."""
@@ -798,6 +801,24 @@ def apply_rules(text, rules, ed, base=0, regex_map=None):
             e = match_close(st, i + 2)
             ed.replace(base + t.start, base + st[e].end, "R5", "verif_fmt()")
             i = e
+        elif "R11" in rules and is_id(t, "unwrap") and i >= 2 and is_p(st[i - 1], ".") and is_p(st[i - 2], ")") \
+                and i + 2 < n and is_p(st[i + 1], "(") and is_p(st[i + 2], ")"):
+            # `CALLEE(..).unwrap()` where CALLEE is one of the I/O operations the sidecar lists (`io_unwrap NAME..`):
+            # a panic on an I/O failure ends the thread, so the states that follow exist only for Ok -- the unwrap
+            # becomes the stand-in io_unwrap() (no precondition, ensures the value was Ok).  Every other unwrap keeps
+            # Verus' own precondition.
+            depth = 0
+            b = i - 2
+            while b >= 0:
+                if st[b].kind == "punct" and st[b].text in CLOSE:
+                    depth += 1
+                elif st[b].kind == "punct" and st[b].text in OPEN:
+                    depth -= 1
+                    if depth == 0:
+                        break
+                b -= 1
+            if b >= 1 and is_id(st[b - 1]) and st[b - 1].text in IO_UNWRAP:
+                ed.replace(base + t.start, base + t.end, "R11", "io_unwrap")
         elif "R8" in rules and is_id(t, "println") and i + 2 < n and is_p(st[i + 1], "!") and is_p(st[i + 2], "("):
             # the print and the evaluation of its arguments are dropped (stdout is outside every property)
             e = match_close(st, i + 2)
